@@ -26,7 +26,7 @@ carries the corresponding named hypothesis (`Search.LeafOK`, one clause per kind
                                        highest UID selects nothing (C16 leaves this case unjudged); `SetSmall`
                                        (numbers < 2^32) is what the command parser guarantees
   sequence set         SetSmall, NoStarAbove — `n:*` above the count selects nothing
-  CHARSET              a charset x/text knows by name only: nil pointer dereference (`charset_unsupported_panics`)
+(A CHARSET that x/text knows by name only used to panic; repaired in /repo, see `charset_unsupported_refused`.)
 -/
 import GluonModel.Lemmas.Search
 
@@ -324,11 +324,17 @@ theorem ci_substring_meaning (hay key : Bytes) :
 
 /-! ## CHARSET -/
 
-/-- **A charset golang.org/x/text knows by name only (UTF-7, UTF-32, GB2312, ISO-2022-KR, …) panics** —
-    `ianaindex.IANA.Encoding` returns `(nil, nil)` and `handleSearch` calls `NewDecoder` on the nil interface:
-    for every mailbox and every key.  Oracle scenario `charset-unsupported-panic`. -/
-theorem charset_unsupported_panics (u : Bool) (s : Snap) (data : MsgId → MsgData) (keys : List Key) :
-    handleSearch .unsupported u s data keys = .panic := rfl
+/-- **A charset golang.org/x/text knows by name only (UTF-7, UTF-32, GB2312, ISO-2022-KR, …) is refused, not
+    dereferenced** — `ianaindex.IANA.Encoding` returns `(nil, nil)` for it; `handleSearch` answers NO [BADCHARSET]
+    for every mailbox and every key, and nothing is searched (before fix 3279020 this was a nil pointer panic).
+    Oracle scenario `charset-unsupported` (regression). -/
+theorem charset_unsupported_refused (u : Bool) (s : Snap) (data : MsgId → MsgData) (keys : List Key) :
+    handleSearch .unsupported u s data keys = .badCharset := rfl
+
+/-- **`handleSearch` never panics** — whatever the charset lookup gives, whatever the mailbox and the keys. -/
+theorem handleSearch_no_panic (cs : Charset) (u : Bool) (s : Snap) (data : MsgId → MsgData) (keys : List Key) :
+    handleSearch cs u s data keys ≠ .panic := by
+  cases cs <;> simp only [handleSearch] <;> (try split) <;> simp
 
 /-- an unknown charset is refused with NO [BADCHARSET], before anything is searched -/
 theorem charset_unknown_refused (u : Bool) (s : Snap) (data : MsgId → MsgData) (keys : List Key) :
